@@ -267,7 +267,9 @@ func (s *Server) manifestPut(repoStr, arg string) http.HandlerFunc {
 		rLimit := io.LimitReader(r.Body, s.conf.API.Manifest.Limit+1)
 		mRaw, err := io.ReadAll(rLimit)
 		if err != nil {
-			w.WriteHeader(http.StatusInternalServerError)
+			// the only source of an error is the request body, the client stopped sending
+			w.WriteHeader(http.StatusBadRequest)
+			_ = types.ErrRespJSON(w, types.ErrInfoManifestInvalid("failed to read the request body"))
 			s.log.Info("failed to read manifest", "repo", repoStr, "arg", arg, "err", err)
 			return
 		}
